@@ -86,6 +86,32 @@ def body_fwd(p, ident=None):
     return ok and not mism
 
 
+def body_fcfs(p):
+    """first-come-first-served encoder and the list of all encodings natively on a larger pairing (no MILP): lossless, stem-uniform"""
+    from harness.e1_common import log, known_keys
+    from rnapolis.common import BpSeq, Entry
+    pc = list(p)
+    n = len(pc)
+    seq = "".join(LETTERS[i % 26] for i in range(n))
+    problems = []
+    try:
+        b = BpSeq([Entry(i + 1, seq[i], pc[i]) for i in range(n)])
+        outs = [("fcfs", b.fcfs.sequence, b.fcfs.structure)]
+        if sum(1 for i in range(n) if pc[i] > i + 1) <= 4:
+            outs += [(f"all[{k}]", d.sequence, d.structure) for k, d in enumerate(b.all_dot_brackets)]
+        if [e.pair for e in BpSeq.from_dotbracket(b.fcfs).entries] != pc:
+            problems.append(("from_dotbracket(fcfs) changes the pairs", "fcfs"))
+        for name, dseq, st in outs:
+            for pr in lossless_problems(pc, seq, dseq, st):
+                problems.append((f"{name}: {pr}", name.split("[")[0]))
+    except Exception as e:  # noqa: BLE001
+        problems.append((f"exception {type(e).__name__}: {e}", "exception"))
+    keys = sorted({f"BpSeq.{k}" for _, k in problems})
+    ok = all(k in known_keys(PID) for k in keys)
+    log({"p": pc, "outs": 1, "problems": [m for m, _ in problems][:4], "keys": keys, "dual_mismatch": False, "kind": "fwd"})
+    return ok
+
+
 def body_family(kind, k, p):
     """structured families: kind 0 = k leading hairpins + knotted tail; kind 1 = hairpins interleaved into the tail"""
     from harness.e1_common import realize, NoTracing
@@ -342,6 +368,16 @@ def run(rep, tier):
     if tier != "quick":
         fam += [("inflated", 8, 4, 2), ("inflated", 7, 3, 3)]
     parts += pd.run_families(rep, "harness.c01", fam, body_inflated="body_inflated")
+    # larger pairings through the solver-free encoders only (FCFS, and the list of all encodings for <= 4 pairs): z3 AllSAT + native execution
+    from vlib import allsat
+    for n in ([8, 9] if tier == "quick" else [10, 11]):
+        models, nq, dt = allsat.pairings(n)
+        rep.add(transitions=nq, solver_s=dt)
+        exp = len(list(all_pairings(n))) if n <= 10 else None
+        if exp is not None and len(models) != exp:
+            rep.harness_error(f"fcfs_n{n}: z3 AllSAT produced {len(models)} models, independent count is {exp}")
+        parts.append(allsat.run_family(f"fcfs_n{n}", "harness.c01", "body_fcfs", [(list(m),) for m in models],
+                                       [f"every pairing on {n} positions", "FCFS encoder (and all encodings for <= 4 pairs), no MILP"], expected=exp, chunksize=64))
     e1.collect(rep, parts, "harness.c01")
     rep.add(functions_encoded=["BpSeq.__post_init__", "BpSeq.paired", "BpSeq.__stems_entries", "BpSeq.__regions",
                                "BpSeq.fcfs", "BpSeq.all_dot_brackets", "BpSeq.__make_dot_bracket",
@@ -351,7 +387,7 @@ def run(rep, tier):
             bounds={"forward N<=": Nmax, "converse N<=": Nrev, "converse bracket types": L,
                     "bracket tables": "all 30 types on two crossing stems" if tier != "quick" else "30 types, second level = first+7 mod 30",
                     "families": "k<=12 leading hairpins + every knotted tail on 4..6 positions; hairpins interleaved into the tail; inflated knotted diagrams",
-                    "ladder": "k<=30 mutually crossing pairs through FCFS", "multistrand N": nms,
+                    "ladder": "k<=30 mutually crossing pairs through FCFS", "fcfs natively": "every pairing on 8-9 (quick) / 10-11 (thorough) positions", "multistrand N": nms,
                     "outside": "N larger than the bounds; structures needing >5 levels except ladders; non-letter sequences"},
             engines=["E1 CrossHair 0.0.110 (z3 5.1.0)", "E3 captured MILP -> z3 LIA"], exhaustive=True,
             rule="states = distinct realised inputs at the end of CrossHair paths (path classes); transitions = path executions; "
